@@ -322,7 +322,12 @@ def main():
                   "baseline_off_cmd": "/verif/tools/baseline.py", "source_commits": commits, "add_only": True},
         "engines": [{"name": "tlc", "path": "/verif/check", "serves_properties": [c["property_id"] for c in checks],
                      "kind_free_text": "explicit TLA+ specifications (spec/*.tla) checked with TLC; conformance by replaying TLC-generated "
-                                       "vectors into holpy and validating recorded traces of the real code against trace specifications"}],
+                                       "vectors into holpy and validating recorded traces of the real code against trace specifications"},
+                    {"name": "tlc-extras", "path": "/verif/check", "serves_properties": ["C07", "C08", "C11", "C12", "C13", "C19", "C20"],
+                     "kind_free_text": "extra specification modules beyond the listed properties (statements: extras/X0n.md; `./check X01|X02|X03|X05|X06|X07 "
+                                       "quick|thorough`): X01 theory/context discipline, X02 ProofTerm.export and ItemID arithmetic, X03 types and polynomials, "
+                                       "X05 the IDE's HTTP API, X06 the parameterised-protocol verifier, X07 computation-file bookkeeping of the integration "
+                                       "calculator; same S/T + conformance construction; not MANIFEST checks (DESIGN.md section 13.1)"}],
         "checks": checks,
         "notes": "One entry point: ./check <ID> quick|thorough|--replay <file>. Verdicts are computed only by TLC on the TLA+ specifications; "
                  "Python generates inputs, runs holpy and projects objects to JSON. known_findings.txt lists fixed and open findings.",
